@@ -1,1 +1,325 @@
-// placeholder
+// ======================================================================================
+// units/C17/spo.rs - lib/analysis/stack_pointer_offsets.rs under contract (REAL text, extracted).
+// The mathematics (AOff, gamma, a_le / a_join / a_cmp, is_transl, handle_abs, step_sound and the
+// soundness lemmas) is in units/C17/spo_theory.rs; this file ties the code to it.
+// ======================================================================================
+
+//@ source lib/analysis/stack_pointer_offsets.rs
+//@ item enum StackPointerOffset
+//@ item enum IntermediateOffset
+//@ item struct StackPointerOffsetAnalysis
+
+/// the mathematical value of the analysis' lattice element
+pub open spec fn abs(o: IntermediateOffset) -> AOff {
+    match o {
+        IntermediateOffset::Top => AOff::Top,
+        IntermediateOffset::Value(c) => AOff::Value(c.bits as nat, c.value@),
+        IntermediateOffset::Bottom => AOff::Bottom,
+    }
+}
+
+/// data invariant of a lattice element: the constant satisfies il::Constant's invariant
+pub open spec fn io_wf(o: IntermediateOffset) -> bool {
+    o matches IntermediateOffset::Value(c) ==> c.wf()
+}
+
+pub proof fn lemma_io_wf(o: IntermediateOffset)
+    requires io_wf(o),
+    ensures a_wf(abs(o)),
+{
+}
+
+// derive(Clone, PartialEq, Eq, Debug) of IntermediateOffset re-supplied.  ASSUMED (derive = structural
+// copy / structural equality; Constant equality is equality of width and mathematical value).
+impl Clone for IntermediateOffset {
+    #[verifier::external_body]
+    fn clone(&self) -> (r: IntermediateOffset) ensures r == *self { unimplemented!() }
+}
+impl vstd::std_specs::cmp::PartialEqSpecImpl for IntermediateOffset {
+    open spec fn obeys_eq_spec() -> bool { true }
+    open spec fn eq_spec(&self, other: &IntermediateOffset) -> bool { abs(*self) == abs(*other) }
+}
+impl PartialEq for IntermediateOffset {
+    #[verifier::external_body]
+    fn eq(&self, other: &IntermediateOffset) -> (r: bool) ensures r == (abs(*self) == abs(*other)) { unimplemented!() }
+}
+impl Eq for IntermediateOffset {}
+
+// ---- the order ---------------------------------------------------------------------------------
+impl vstd::std_specs::cmp::PartialOrdSpecImpl for IntermediateOffset {
+    open spec fn obeys_partial_cmp_spec() -> bool { true }
+    open spec fn partial_cmp_spec(&self, other: &IntermediateOffset) -> Option<core::cmp::Ordering> { a_cmp(abs(*self), abs(*other)) }
+}
+impl PartialOrd for IntermediateOffset {
+//@ fn impl PartialOrd for IntermediateOffset :: fn partial_cmp nopub
+//@ spec
+    ensures /*@order*/ r == a_cmp(abs(*self), abs(*other)),
+//@ end
+}
+
+// ---- the public result type ----------------------------------------------------------------------
+impl StackPointerOffset {
+//@ fn impl StackPointerOffset :: fn is_top
+//@ spec
+    ensures /*@iff*/ r == (*self is Top),
+//@ end
+//@ fn impl StackPointerOffset :: fn is_value
+//@ spec
+    ensures /*@iff*/ r == (*self is Value),
+//@ end
+//@ fn impl StackPointerOffset :: fn is_bottom
+//@ spec
+    ensures /*@iff*/ r == (*self is Bottom),
+//@ end
+//@ fn impl StackPointerOffset :: fn value
+//@ spec
+    ensures
+        /*@value*/ *self matches StackPointerOffset::Value(k) ==> r == Some(k),
+        /*@other*/ !(*self is Value) ==> r is None,
+//@ end
+}
+
+/// THE REPORTED OFFSET (from the property): the constant read as a SIGNED quantity of its own width;
+/// None = the analysis reports an error (a constant wider than 64 bits has no i64 reading)
+pub open spec fn reported(o: IntermediateOffset) -> Option<StackPointerOffset> {
+    match o {
+        IntermediateOffset::Top => Some(StackPointerOffset::Top),
+        IntermediateOffset::Bottom => Some(StackPointerOffset::Bottom),
+        IntermediateOffset::Value(c) => if c.bits <= 64 { Some(StackPointerOffset::Value(sval(c.bits as nat, c.value@) as isize)) } else { None },
+    }
+}
+
+/// the signed reading at a width that fits the machine word is representable (so the cast in `reported` is exact)
+pub proof fn lemma_reported_fits(w: nat, v: nat)
+    requires 1 <= w <= 64, w <= usize::BITS, v < pow2(w),
+    ensures isize::MIN <= sval(w, v) <= isize::MAX,
+{
+    lemma_sval_range(w, v);
+    lemma2_to64();
+    lemma_pow2_step(63);
+    if w - 1 < 31 { lemma_pow2_strictly_increases((w - 1) as nat, 31); }
+    if w - 1 < 63 { lemma_pow2_strictly_increases((w - 1) as nat, 63); }
+    lemma_pow2_step(31);
+}
+
+impl StackPointerOffset {
+//@ fn impl StackPointerOffset :: fn from_intermediate
+//@ closure 0 || -> (e0: Error)
+//@ spec
+    requires io_wf(*intermediate),
+    ensures
+        /*@top*/ *intermediate is Top ==> r == Ok::<StackPointerOffset, Error>(StackPointerOffset::Top),
+        /*@bottom*/ *intermediate is Bottom ==> r == Ok::<StackPointerOffset, Error>(StackPointerOffset::Bottom),
+        /*@signed*/ *intermediate matches IntermediateOffset::Value(c) ==> (c.bits <= 64 ==> (r matches Ok(StackPointerOffset::Value(k))
+            && (c.bits as nat <= usize::BITS ==> k as int == sval(c.bits as nat, c.value@)))),
+        /*@wide*/ *intermediate matches IntermediateOffset::Value(c) ==> (c.bits > 64 ==> r is Err),
+        /*@spec*/ usize::BITS == 64 ==> (match reported(*intermediate) { Some(x) => r == Ok::<StackPointerOffset, Error>(x), None => r is Err }),
+//@ enter
+    proof {
+        if let IntermediateOffset::Value(c) = *intermediate {
+            if c.bits <= 64 && c.bits as nat <= usize::BITS { lemma_reported_fits(c.bits as nat, c.value@); }
+        }
+    }
+//@ end
+}
+
+// ---- transform: every entry is converted ------------------------------------------------------------
+//@ fn fn transform loops=1
+//@ rewrite 1 `states .into_iter() .try_fold(HashMap::new(), |mut t, (rpl, ispo)| {` => `let mut t: HashMap<il::ProgramLocation, StackPointerOffset> = HashMap::new(); let vf_items = hashmap_into_items::hashmap_into_items(states); for vf_item in vf_it: vf_items { let (rpl, ispo) = vf_item; {` ## R-tryfold: `ITER.try_fold(INIT, |mut acc, x| { BODY; Ok(acc) })` is by definition the loop `let mut acc = INIT; for x in ITER { BODY }; Ok(acc)` whose `?` leaves with the error (part 1 of 2; BODY stays the original tokens); `states.into_iter()` is taken through the stand-in of prelude/hashmap_into_items.rs (every entry once, order unspecified)
+//@ rewrite 1 `Ok(t) })` => `} } Ok(t)` ## R-tryfold: part 2 of 2
+//@ spec
+    requires forall|k: il::ProgramLocation| #[trigger] states@.contains_key(k) ==> io_wf(states@[k]),
+    ensures
+        /*@domain*/ r matches Ok(t) ==> t@.dom() =~= states@.dom(),
+        /*@entries*/ r matches Ok(t) ==> forall|k: il::ProgramLocation| #[trigger] states@.contains_key(k) ==>
+            (usize::BITS == 64 ==> reported(states@[k]) == Some(t@[k])),
+        /*@err*/ r is Err ==> exists|k: il::ProgramLocation| #[trigger] states@.contains_key(k) && reported(states@[k]) is None,
+//@ before 0 `let mut t`
+    let ghost m0 = states@;
+//@ loop 0
+    invariant
+        hashmap_into_items::lists_entries(vf_items@, m0),
+        vf_it.seq() == vf_items@,
+        forall|k: il::ProgramLocation| #[trigger] m0.contains_key(k) ==> io_wf(m0[k]),
+        forall|k: il::ProgramLocation| #[trigger] t@.contains_key(k) <==> (exists|i: int| 0 <= i < vf_it.index@ && (#[trigger] vf_items@[i]).0 == k),
+        forall|i: int| 0 <= i < vf_it.index@ ==> (usize::BITS == 64 ==> reported((#[trigger] vf_items@[i]).1) == Some(t@[vf_items@[i].0])),
+//@ end
+
+// ---- the analysis ------------------------------------------------------------------------------------
+
+/// the stack pointer scalar the analysis is run with: a width for which an offset has an i64 reading
+pub open spec fn sp_ok(sp: Scalar) -> bool {
+    1 <= sp.bits <= 64
+}
+
+/// the operation's expressions are sane (constants satisfy their invariant, explicit widths in range):
+/// what the evaluator needs in order not to allocate without bound
+pub open spec fn op_sane(op: Operation) -> bool {
+    op matches Operation::Assign { dst, src } ==> expr_sane(src)
+}
+
+pub open spec fn is_assign_to(op: Operation, sp: Scalar) -> bool {
+    op matches Operation::Assign { dst, src } && dst == sp
+}
+pub open spec fn assign_src(op: Operation) -> Expression {
+    op->Assign_src
+}
+pub open spec fn is_load_to(op: Operation, sp: Scalar) -> bool {
+    op matches Operation::Load { dst, index } && dst == sp
+}
+
+/// substituting a constant for a scalar keeps an expression sane
+pub proof fn lemma_replace_sane(e: Expression, sp: Scalar, c: Constant)
+    requires expr_sane(e), c.wf(), replace_spec(e, sp, Expression::Constant(c)) is Some,
+    ensures expr_sane(replace_spec(e, sp, Expression::Constant(c)).unwrap()),
+    decreases e,
+{
+    let g = repl_g(sp, Expression::Constant(c));
+    if g(e) is Some {
+    } else {
+        match e {
+            Expression::Scalar(x) => {}
+            Expression::Constant(k) => {}
+            Expression::Add(l, r) | Expression::Sub(l, r) | Expression::Mul(l, r) | Expression::Divu(l, r)
+            | Expression::Modu(l, r) | Expression::Divs(l, r) | Expression::Mods(l, r) | Expression::And(l, r)
+            | Expression::Or(l, r) | Expression::Xor(l, r) | Expression::Shl(l, r) | Expression::Shr(l, r)
+            | Expression::AShr(l, r) | Expression::Cmpeq(l, r) | Expression::Cmpneq(l, r) | Expression::Cmplts(l, r)
+            | Expression::Cmpltu(l, r) => { lemma_replace_sane(*l, sp, c); lemma_replace_sane(*r, sp, c); }
+            Expression::Zext(b, x) | Expression::Sext(b, x) | Expression::Trun(b, x) => { lemma_replace_sane(*x, sp, c); }
+            Expression::Ite(k, t, f) => { lemma_replace_sane(*k, sp, c); lemma_replace_sane(*t, sp, c); lemma_replace_sane(*f, sp, c); }
+        }
+    }
+}
+
+/// on a well-sorted translation, substituting a constant of the stack pointer's width cannot fail
+pub proof fn lemma_replace_total(e: Expression, sp: Scalar, c: Constant)
+    requires expr_wf(e), is_transl(sp, e), c.bits == sp.bits,
+    ensures replace_spec(e, sp, Expression::Constant(c)) matches Some(e2) && expr_bits(e2) == expr_bits(e),
+    decreases e,
+{
+    match e {
+        Expression::Add(l, r) => {
+            if is_transl(sp, *l) && expr_all_constants(*r) { lemma_replace_total(*l, sp, c); lemma_replace_const(*r, sp, Expression::Constant(c)); }
+            else { lemma_replace_total(*r, sp, c); lemma_replace_const(*l, sp, Expression::Constant(c)); }
+        }
+        Expression::Sub(l, r) => { lemma_replace_total(*l, sp, c); lemma_replace_const(*r, sp, Expression::Constant(c)); }
+        _ => {}
+    }
+}
+
+/// substitution does not touch a scalar-free well-sorted expression
+pub proof fn lemma_replace_const(e: Expression, sp: Scalar, v: Expression)
+    requires expr_wf(e), expr_all_constants(e),
+    ensures replace_spec(e, sp, v) == Some(e),
+    decreases e,
+{
+    match e {
+        Expression::Scalar(x) => {}
+        Expression::Constant(k) => {}
+        Expression::Add(l, r) | Expression::Sub(l, r) | Expression::Mul(l, r) | Expression::Divu(l, r)
+        | Expression::Modu(l, r) | Expression::Divs(l, r) | Expression::Mods(l, r) | Expression::And(l, r)
+        | Expression::Or(l, r) | Expression::Xor(l, r) | Expression::Shl(l, r) | Expression::Shr(l, r)
+        | Expression::AShr(l, r) | Expression::Cmpeq(l, r) | Expression::Cmpneq(l, r) | Expression::Cmplts(l, r)
+        | Expression::Cmpltu(l, r) => { lemma_replace_const(*l, sp, v); lemma_replace_const(*r, sp, v); }
+        Expression::Zext(b, x) | Expression::Sext(b, x) | Expression::Trun(b, x) => { lemma_replace_const(*x, sp, v); lemma_expr_wf_bits(*x); }
+        Expression::Ite(k, t, f) => { lemma_replace_const(*k, sp, v); lemma_replace_const(*t, sp, v); lemma_replace_const(*f, sp, v); }
+    }
+}
+
+/// the expression handle_operation evaluates: the right-hand side with the current offset substituted for sp
+pub open spec fn subst_of(op: Operation, sp: Scalar, off: IntermediateOffset) -> Option<Expression> {
+    replace_spec(assign_src(op), sp, Expression::Constant(off->Value_0))
+}
+
+/// everything handle_operation's contract needs about one (operation, input) pair, proved at spec level:
+/// the transfer function is locally sound, and what the substitute-and-evaluate step computes is the
+/// transfer function's value
+pub proof fn lemma_handle_facts(sp: Scalar, op: Operation, off: IntermediateOffset)
+    requires io_wf(off),
+    ensures
+        a_wf(abs(off)),
+        sp_exclusive(op, sp) ==> (handle_abs(sp, op, abs(off)) matches Some(a2) ==> step_sound(sp, op, abs(off), a2)),
+        (is_assign_to(op, sp) && off is Value && subst_of(op, sp, off) is Some) ==>
+            eval_spec(subst_of(op, sp, off).unwrap(), empty_env())
+                == eval_spec(assign_src(op), sp_env(sp, (off->Value_0).bits as nat, (off->Value_0).value@)),
+        (is_assign_to(op, sp) && op_sane(op) && off is Value && subst_of(op, sp, off) is Some) ==>
+            expr_sane(subst_of(op, sp, off).unwrap()),
+{
+    if sp_exclusive(op, sp) && handle_abs(sp, op, abs(off)) is Some {
+        lemma_handle_sound(sp, op, abs(off));
+    }
+    if is_assign_to(op, sp) {
+        if let IntermediateOffset::Value(c) = off {
+            let src = assign_src(op);
+            if replace_spec(src, sp, Expression::Constant(c)) is Some {
+                lemma_subst_eval(src, sp, Expression::Constant(c), empty_env(), c.bits as nat, c.value@);
+                if op_sane(op) { lemma_replace_sane(src, sp, c); }
+            }
+        }
+    }
+}
+
+impl StackPointerOffsetAnalysis {
+
+//@ fn impl StackPointerOffsetAnalysis :: fn is_translation
+//@ spec
+    ensures /*@spec*/ r == is_transl(self.stack_pointer, *expression),
+    decreases *expression,
+//@ end
+
+//@ fn impl StackPointerOffsetAnalysis :: fn handle_operation
+//@ spec
+    requires io_wf(stack_pointer_offset), op_sane(*operation),
+    ensures
+        // LOCAL SOUNDNESS, per operation kind (PROVISO sp_exclusive: see spo_theory.rs)
+        /*@sound_translation*/ (is_assign_to(*operation, self.stack_pointer) && is_transl(self.stack_pointer, assign_src(*operation)) && sp_exclusive(*operation, self.stack_pointer))
+            ==> (r matches Ok(a2) ==> step_sound(self.stack_pointer, *operation, abs(stack_pointer_offset), abs(a2))),
+        /*@sound_nontranslation*/ (is_assign_to(*operation, self.stack_pointer) && !is_transl(self.stack_pointer, assign_src(*operation)) && sp_exclusive(*operation, self.stack_pointer))
+            ==> (r matches Ok(a2) ==> step_sound(self.stack_pointer, *operation, abs(stack_pointer_offset), abs(a2))),
+        /*@sound_load*/ (*operation is Load && sp_exclusive(*operation, self.stack_pointer))
+            ==> (r matches Ok(a2) ==> step_sound(self.stack_pointer, *operation, abs(stack_pointer_offset), abs(a2))),
+        /*@sound_other*/ (!is_assign_to(*operation, self.stack_pointer) && !(*operation is Load) && sp_exclusive(*operation, self.stack_pointer))
+            ==> (r matches Ok(a2) ==> step_sound(self.stack_pointer, *operation, abs(stack_pointer_offset), abs(a2))),
+        // "where the stack pointer is loaded or computed from other registers it reports 'unknown' rather than a number"
+        /*@unknown_load*/ is_load_to(*operation, self.stack_pointer) ==> (r matches Ok(a2) && abs(a2) is Top),
+        /*@unknown_nontranslation*/ (is_assign_to(*operation, self.stack_pointer) && !is_transl(self.stack_pointer, assign_src(*operation)) && stack_pointer_offset is Value)
+            ==> (r matches Ok(a2) && abs(a2) is Top),
+        // exact value and exact error condition
+        /*@spec*/ r matches Ok(a2) ==> handle_abs(self.stack_pointer, *operation, abs(stack_pointer_offset)) == Some(abs(a2)) && io_wf(a2),
+        /*@completes*/ r is Err ==> (handle_abs(self.stack_pointer, *operation, abs(stack_pointer_offset)) is None
+            || (is_assign_to(*operation, self.stack_pointer) && is_transl(self.stack_pointer, assign_src(*operation))
+                && !(expr_wf(assign_src(*operation)) && stack_pointer_offset->Value_0.bits == self.stack_pointer.bits))),
+//@ enter
+    proof {
+        lemma_handle_facts(self.stack_pointer, *operation, stack_pointer_offset);
+        if is_assign_to(*operation, self.stack_pointer) && is_transl(self.stack_pointer, assign_src(*operation)) && expr_wf(assign_src(*operation)) {
+            if let IntermediateOffset::Value(c) = stack_pointer_offset {
+                if c.bits == self.stack_pointer.bits { lemma_replace_total(assign_src(*operation), self.stack_pointer, c); }
+            }
+        }
+    }
+//@ end
+
+} // impl StackPointerOffsetAnalysis
+
+// ---- join ------------------------------------------------------------------------------------------------
+
+/// join is an upper bound for the concretisation
+pub open spec fn gamma_ub(a: AOff, b: AOff, j: AOff) -> bool {
+    forall|sp: Scalar, sp0: nat, s: CState| #![trigger gamma(sp, sp0, j, s)]
+        gamma(sp, sp0, a, s) || gamma(sp, sp0, b, s) ==> gamma(sp, sp0, j, s)
+}
+
+impl<'f> StackPointerOffsetAnalysis {
+
+//@ fn impl<'f> fixed_point::FixedPointAnalysis<'f, IntermediateOffset> for StackPointerOffsetAnalysis :: fn join
+//@ spec
+    ensures
+        /*@total*/ r is Ok,
+        /*@upper_bound*/ r matches Ok(j) ==> gamma_ub(abs(state0), abs(*state1), abs(j)),
+        /*@le_consistent*/ r matches Ok(j) ==> a_le(abs(state0), abs(j)) && a_le(abs(*state1), abs(j)),
+        /*@least*/ r matches Ok(j) ==> abs(j) == a_join(abs(state0), abs(*state1)),
+        /*@wf*/ (io_wf(state0) && io_wf(*state1)) ==> (r matches Ok(j) && io_wf(j)),
+//@ end
+
+} // impl
